@@ -25,6 +25,7 @@ from common import sexp, parse_sexp
 MODEL_FILES = ['MaltModel/Func/Target.lean', 'MaltModel/Func/Functionalise.lean', 'MaltModel/Props/C01Func.lean',
                'MaltModel/Proofs/FuncBasic.lean', 'MaltModel/Proofs/FuncRestrict.lean', 'MaltModel/Proofs/FuncSim.lean', 'MaltModel/Proofs/FuncCheck.lean',
                'MaltModel/Proofs/FuncFBasic.lean', 'MaltModel/Proofs/FuncFSim.lean', 'MaltModel/Proofs/FuncBlockVars.lean',
+               'MaltModel/Func/Wrapper.lean', 'MaltModel/Proofs/FuncWrapper.lean', 'MaltModel/Proofs/FuncWrapperF.lean',
                'MaltModel/Drv/C02.lean']
 FUEL = 400
 CLASSES = ['for_target_live_across_zero_trip',
@@ -281,6 +282,8 @@ def out_of_lean(x):
         return ['exc', 'E' + x[2]]
     if isinstance(x, list) and x and x[0] == 'exc':
         return ['exc', x[1]]
+    if x == 'normal':          # falling off the end of the function: the caller sees `return None` (fnOutcome)
+        return ['ret', 'none']
     return [x if isinstance(x, str) else '?']
 
 
@@ -370,13 +373,85 @@ def fragment(c):
     return B.ablock_sexp(pre.block), fin.block, pre.params
 
 
+def wrapper_fragment(c):
+    """The function with its return protocol kept: (annotated lowered program = `Lowered.prog`, real block inside the
+    `with` between initialisation and final return, wrapper record, params)."""
+    if c.cf_node is None or c.final_fn is None:
+        raise B.Unsupported('no snapshot')
+    w = B.wrapper_of(c.final_fn, False)
+    pre = B.PreTree(c.cf_node, c.annos_of, wrapper=True)
+    fin = B.FinalTree(c.final_fn, inner=w['inner'])
+    if w['ret']:
+        if len(pre.block) < 3 or pre.block[-1][0] != 'ret':
+            raise B.ShapeMismatch('lowered program does not end in the return of retval_')
+        B.align(pre.block[2:-1], fin.block)
+    else:
+        B.align(pre.block, fin.block)
+    return B.ablock_sexp(pre.block), fin.block, [w['name'], str(bool(w['ur']))] + (w['ret'] or []), pre.params
+
+
+def fscope_protocol_problems():
+    """The run-time protocol Func/Wrapper.lean assumes, on the REAL classes: `__enter__` returns the scope and pushes an
+    ENABLED status context iff user_requested; `__exit__` returns a false value (never swallows) and pops it, with and
+    without an exception; `ret` maps the UndefinedReturnValue placeholder to None and is the identity otherwise."""
+    from malt.core import ag_ctx, converter
+    from malt.operators import function_wrappers, variables
+    probs = []
+    for ur in (True, False):
+        opts = converter.ConversionOptions(recursive=True, user_requested=ur, optional_features=None)
+        for exc in (None, ValueError('x')):
+            before = list(ag_ctx._control_ctx())
+            fs = function_wrappers.FunctionScope('f', 'fscope', opts)
+            got = fs.__enter__()
+            inside = list(ag_ctx._control_ctx())
+            if got is not fs:
+                probs.append('__enter__ does not return the scope')
+            if ur:
+                if not (len(inside) == len(before) + 1 and inside[:-1] == before and inside[-1].status == ag_ctx.Status.ENABLED):
+                    probs.append('user_requested=True: __enter__ does not push one ENABLED status context')
+            elif inside != before:
+                probs.append('user_requested=False: __enter__ changes the status stack')
+            r = fs.__exit__(type(exc), exc, None) if exc is not None else fs.__exit__(None, None, None)
+            if r:
+                probs.append('__exit__ returns a true value (ur=%r, exc=%r): the with statement would swallow' % (ur, exc))
+            if list(ag_ctx._control_ctx()) != before:
+                probs.append('__exit__ does not restore the status stack (ur=%r, exc=%r)' % (ur, exc))
+        fs = function_wrappers.FunctionScope('f', 'fscope', opts)
+        if fs.ret(variables.UndefinedReturnValue(), False) is not None or fs.ret(variables.UndefinedReturnValue(), True) is not None:
+            probs.append('ret(UndefinedReturnValue(), _) is not None')
+        for v in (0, 7, None, (1, 2), variables.Undefined('x')):
+            if fs.ret(v, True) is not v or fs.ret(v, False) is not v:
+                probs.append('ret(%r, _) is not the identity' % (v,))
+        # the with statement itself, end to end
+        try:
+            with function_wrappers.FunctionScope('f', 'fscope', opts):
+                raise KeyError('k')
+            probs.append('an exception raised inside the with did not propagate')
+        except KeyError:
+            pass
+    if isinstance(variables.UndefinedReturnValue(), type(None)):
+        probs.append('UndefinedReturnValue is None')
+    if fs.callopts.user_requested:
+        probs.append('call_options() keeps user_requested')
+    return probs
+
+
 def record(c):
     """Plain-data summary of one explored program (picklable: it crosses a process boundary)."""
     r = {'stream': c.stream, 'key': c.prog.key, 'fsrc': c.fsrc, 'inputs': [list(a) for a in c.prog.inputs],
          'features': sorted(c.prog.features), 'conv_error': c.conv_error, 'results': c.results, 'counters': c.counters,
          'classes': classify(c.source_fn, c.module_names, c.cf_node, c.annos_of, c.final_fn), 'same_code': c.same_code,
          'closure_live': closure_reads_live(c.cf_node, c.annos_of),
-         'frag': None, 'unsupported': None, 'shape': None}
+         'frag': None, 'unsupported': None, 'shape': None, 'wshape': None, 'wfrag': None, 'wunsupported': None}
+    if c.conv_error is None and c.final_fn is not None:
+        r['wshape'] = B.wrapper_shape_problems(c.source_fn, c.final_fn)
+        try:
+            ab, tb, w, params = wrapper_fragment(c)
+            r['wfrag'] = {'ab': sexp(ab), 'tb': sexp(tb), 'tb_tree': B.to_str_tree(tb), 'w': w, 'params': params}
+        except B.Unsupported as e:
+            r['wunsupported'] = str(e)
+        except B.ShapeMismatch as e:
+            r['wshape'] = (r['wshape'] or []) + ['wrapper fragment: ' + str(e)]
     if c.conv_error is None:
         try:
             ab, tb, params = fragment(c)
@@ -477,6 +552,9 @@ def check(run, only=None):
     n_s1 = 70 if quick else 600
     for _ in range(n_s1):
         items.append(('gen', 's1', rng.getrandbits(48), rng.randrange(6, 11)))
+    n_wrap = 50 if quick else 400
+    for _ in range(n_wrap):
+        items.append(('gen', 'wrap', rng.getrandbits(48), rng.randrange(5, 10)))
     nproc = max(1, min(12, (os.cpu_count() or 2) - 2))
     recs = explore_all(items, nproc)
 
@@ -510,9 +588,9 @@ def check(run, only=None):
             run.fail('a program of the C02 class does not convert: ' + r['conv_error'],
                      {'source': r['fsrc'], 'inputs': r['inputs'], 'stream': r['stream'], 'classes': cl}, cl[0] if cl else None)
             continue
-        if r['stream'] == 's1':
+        if r['stream'] == 's1' or (r['stream'] == 'wrap' and 's1' in r['features']):
             # not pure (with-statements log): only the correspondence of source / native semantics below uses this stream
-            stats['s1_programs'] = stats.get('s1_programs', 0) + 1
+            stats['s1_programs'] = stats.get('s1_programs', 0) + (r['stream'] == 's1')
             stats['s1_native_differs_from_original'] = stats.get('s1_native_differs_from_original', 0) + \
                 len([1 for (a, r0, r1, r2) in r['results'] if r0 != r1])
             for (a, r0, r1, r2) in r['results']:
@@ -567,8 +645,11 @@ def check(run, only=None):
                 'finding class: ' + json.dumps(unattributed[:2])) if unattributed else '')
 
     # ---------------- correspondence on the shared fragment ----------------
-    frag = [r for r in recs if r['frag'] is not None and r['stream'] != 's1']
-    frag_s1 = [r for r in recs if r['frag'] is not None and r['stream'] == 's1']
+    def is_s1(r):
+        return r['stream'] == 's1' or (r['stream'] == 'wrap' and 's1' in r['features'])
+    plain_hyp = {}
+    frag = [r for r in recs if r['frag'] is not None and not is_s1(r)]
+    frag_s1 = [r for r in recs if r['frag'] is not None and is_s1(r)]
     stats['in_fragment'] = len(frag)
     if run.driver_ok and frag:
         lines = []
@@ -595,6 +676,7 @@ def check(run, only=None):
                 hyp[n] += flags[n]
             allh = all(flags[n] for n in ('live', 'decl', 'def', 'jump', 'hypf', 'pure'))
             hyp['all'] += allh
+            plain_hyp[r['fsrc']] = all(flags[n] for n in ('live', 'decl', 'def', 'jump'))
             for d in chk.get('diag', []):
                 kind = ':'.join(d.split(':')[1:])
                 diag_kinds[kind] = diag_kinds.get(kind, 0) + 1
@@ -670,6 +752,7 @@ def check(run, only=None):
                 hyp1[n] += flags[n]
             allh = all(flags.values())
             hyp1['all'] += allh
+            plain_hyp[r['fsrc']] = allh
             hyp1['with_try_or_raise'] += any(f in r['features'] for f in ('with', 'try', 'raise'))
             run.evaluations += 1
             if B.canon_undefs(chk['func'][0]) != B.canon_undefs(g['tb_tree']):
@@ -687,10 +770,87 @@ def check(run, only=None):
             run.oblige('correspondence:passthrough-' + name, 'correspondence', not d1[name], json.dumps(d1[name][:2]) if d1[name] else '')
         cov['passthrough_hypotheses_on_real_annotations'] = dict(hyp1, programs=len(frag_s1))
 
+    # ---------------- the function wrapper and the return-value protocol ----------------
+    sys.path.insert(0, common.REPO)
+    try:
+        pp = fscope_protocol_problems()
+    except Exception as e:      # noqa
+        pp = ['%s: %s' % (type(e).__name__, e)]
+    run.oblige('correspondence:function-scope-protocol', 'correspondence', not pp, json.dumps(pp[:4]) if pp else '')
+    wshape = [{'source': r['fsrc'], 'problems': r['wshape'][:3]} for r in recs if r.get('wshape')]
+    wseen = [r for r in recs if r['conv_error'] is None and r.get('wshape') is not None]
+    run.oblige('correspondence:wrapper-shape', 'correspondence', not wshape and bool(wseen),
+               json.dumps(wshape[:2]) if wshape else ('' if wseen else 'no converted function seen'))
+    wfrag = [r for r in recs if r.get('wfrag') is not None]
+    wst = {'functions_checked_for_shape': len(wseen), 'with_nested_defs': len([r for r in wseen if 'def ' in r['fsrc'][4:]]),
+           'in_fragment': len(wfrag), 'shape_b': 0, 'shape_a': 0, 'wf': 0, 'hyp': 0, 'hypf': 0, 'runs': 0,
+           'returns_none_by_falling_off': 0, 'returns_none_from_placeholder': 0, 'exception_through_with': 0,
+           'unsupported': {}}
+    for r in recs:
+        if r.get('wunsupported'):
+            wst['unsupported'][r['wunsupported']] = wst['unsupported'].get(r['wunsupported'], 0) + 1
+    if run.driver_ok and wfrag:
+        def py_log2(x):
+            return ['%s:%s' % (e[0], e[1]) for e in dict(x[2]).get('LOG', ())]
+        lines = ['c02.callw %s %s %s %s %d %s' % (r['wfrag']['ab'], sexp(r['wfrag']['params']), r['wfrag']['tb'], sexp(r['wfrag']['w']),
+                                                  FUEL, ' '.join(sexp(inp_sexp(a)) for a in r['inputs'])) for r in wfrag]
+        ans = run.drive(lines)
+        dw = {'lowered-shape': [], 'func': [], 'sem-source': [], 'sem-native': [], 'sem-functional': [], 'theorem-instance': []}
+        for r, a_w in zip(wfrag, ans):
+            g = r['wfrag']
+            if a_w.startswith('bad'):
+                dw['func'].append({'source': r['fsrc'], 'driver': a_w[:120]})
+                continue
+            chk = dict((x[0], x[1:]) for x in parse_sexp(a_w))
+            run.evaluations += 1
+            if chk['shape'][0] != 'True':
+                dw['lowered-shape'].append({'source': r['fsrc'], 'lowered': g['ab'][:600]})
+                continue
+            has_ret = len(g['w']) == 4
+            wst['shape_b' if has_ret else 'shape_a'] += 1
+            wf, hyp, hypf = (chk[n][0] == 'True' for n in ('wf', 'hyp', 'hypf'))
+            wst['wf'] += wf
+            wst['hyp'] += hyp
+            wst['hypf'] += hypf
+            # FuncHyp on the protocol-keeping reading vs on the `return e` reading of the same function
+            if r['fsrc'] in plain_hyp and plain_hyp[r['fsrc']] != hyp:
+                wst['hyp_differs_from_return_reading'] = wst.get('hyp_differs_from_return_reading', 0) + 1
+                if len(wst.setdefault('hyp_differs_sample', [])) < 2:
+                    wst['hyp_differs_sample'].append({'source': r['fsrc'], 'return_reading': plain_hyp[r['fsrc']], 'lowered': g['ab'][:2500]})
+            if B.canon_undefs(chk['func'][0]) != B.canon_undefs(g['tb_tree']):
+                dw['func'].append({'source': r['fsrc'], 'model': sexp(chk['func'][0])[:600], 'real': g['tb'][:600]})
+            pure = not (r['stream'] == 's1' or 's1' in r['features'])
+            for (a, r0, r1, r2), row in zip(r['results'], chk['runs']):
+                run.evaluations += 1
+                wst['runs'] += 1
+                (so, sl), (mo, ml, mk), (no, nl, nk), (fo, fl_, fk) = row
+                src, mod, nat, fun = [out_of_lean(x) for x in (so, mo, no, fo)]
+                if r0[0] == 'ret' and r0[1] is None:
+                    wst['returns_none_from_placeholder' if has_ret else 'returns_none_by_falling_off'] += 1
+                if r0[0] == 'exc':
+                    wst['exception_through_with'] += 1
+                if [src, sl] != [out_of_py(r0), py_log2(r0)]:
+                    dw['sem-source'].append({'source': r['fsrc'], 'input': list(a), 'python': repr(r0), 'model': [src, sl]})
+                if [nat, nl] != [out_of_py(r1), py_log2(r1)] or nk != 'True':
+                    dw['sem-native'].append({'source': r['fsrc'], 'input': list(a), 'python': repr(r1), 'model': [nat, nl, nk]})
+                if pure and r['same_code'] and (fun != out_of_py(r2) or fk != 'True'):
+                    dw['sem-functional'].append({'source': r['fsrc'], 'input': list(a), 'python': repr(r2), 'model': [fun, fk]})
+                # instances of function_wrapper_correct / C02_function_wrapper_partial on the real annotations
+                if wf and hyp and not ([mod, ml] == [src, sl] and mk == 'True'):
+                    dw['theorem-instance'].append({'source': r['fsrc'], 'input': list(a), 'source_call': [src, sl], 'converted': [mod, ml, mk]})
+                if wf and hyp and hypf and pure and not (fk == 'True' and (fun[0] == 'exc' or fun == src)):
+                    dw['theorem-instance'].append({'source': r['fsrc'], 'input': list(a), 'source_call': src, 'tracing': [fun, fk]})
+        for name in ('lowered-shape', 'func', 'sem-source', 'sem-native', 'sem-functional'):
+            d = dw[name]
+            run.oblige('correspondence:wrapper-' + name, 'correspondence', not d, json.dumps(d[:2]) if d else '')
+        run.oblige('checker:wrapper-theorem-instances-on-real-annotations', 'checker', not dw['theorem-instance'],
+                   json.dumps(dw['theorem-instance'][:2]) if dw['theorem-instance'] else '')
+    cov['function_wrapper'] = wst
+
     cov['programs'] = stats
     cov['features'] = feats
     cov['failing_classes_seen'] = classes_seen
-    cov['streams'] = {'core': n_core, 'rich': n_rich, 's1': n_s1, 'known_witnesses': len(CLASSES), 'workers': nproc}
+    cov['streams'] = {'core': n_core, 'rich': n_rich, 's1': n_s1, 'wrap': n_wrap, 'known_witnesses': len(CLASSES), 'workers': nproc}
     cov['search'] = ('tracing backend vs original on %d programs x 6 inputs (every branch traced, every loop body traced out of '
                      'band); Lean execF/execN/exec vs the real runs on the %d programs of the shared fragment'
                      % (stats['programs'], stats['in_fragment']))
